@@ -11,7 +11,7 @@ from suites import gens
 
 IMPORTS = gens.IMPORTS + "\nFrom Coq Require Import ZArith QArith.\nFrom Wh Require Import PyStr Parse Glue CorrGlue.\nClose Scope Q_scope."
 
-PEALS = ["2h58", "3h04m", "180", "2h58m", " 3h ", "200m", "2 h 45 m", "3h60", "abc", "", "2h", "h30", "1h-5", "3.5h"]
+PEALS = ["2h58", "3h04m", "1h40", "1h55", "2h03", "4h06m", "8h11", "180", "2h58m", " 3h ", "200m", "2 h 45 m", "3h60", "abc", "", "2h", "h30", "1h-5", "3.5h"]
 
 
 def run_main(argv):
@@ -248,9 +248,13 @@ class GlueSuite:
         if case["mode"] == "server":
             want = (180, 1.0)
         else:
-            from wheatley.parsing import parse_peal_speed
+            import re
             f = case["flags"]
-            want = (parse_peal_speed(f["peal"] if f["peal"] is not None else "2h58"), 1.0 if f["gap"] is None else f["gap"])
+            s = f["peal"] if f["peal"] is not None else "2h58"
+            m = re.fullmatch(r"\s*(\d+)\s*h\s*(\d*)\s*m?\s*", s)
+            m2 = re.fullmatch(r"\s*(\d+)m?\s*", s)
+            minutes = int(m.group(1)) * 60 + int(m.group(2) or 0) if m else int(m2.group(1)) if m2 else r["peal"]
+            want = (minutes, 1.0 if f["gap"] is None else f["gap"])
         if (r["peal"], float(r["gap"])) != want:
             return f"{self.argv(case)}: the rhythm was built for peal speed {r['peal']} and handstroke gap {r['gap']}, asked for {want}"
         return None
